@@ -439,51 +439,7 @@ def _known_third_set(s) -> bool:
     return bool(s.get("simplexes")) or _third_shares_interior_edge(T, [eg.pt(p) for p in s["hull"]])
 
 
-def _known_collection_overlap(s) -> bool:
-    """match_2d where, for some pair of cells, shapely's fixed-precision intersection (grid 1e-12 * extent, as
-    intersections.triangulations computes it since 1b93156c0) is not a Polygon although it has positive area - a
-    GeometryCollection of the common polygon and a collapsed sliver (LineString), or a MultiPolygon.  The class is
-    decided by running the same overlay on the coordinates match_2d hands to shapely (centred at the node mean of
-    the new grid and projected with the common normal), because whether snapping leaves a sliver depends on the
-    rounded coordinates, not on the exact geometry (about 2 in 10 000 match_2d cases)."""
-    if s["fn"] != "match_2d":
-        return False
-    import porepy as pp
-    import shapely
-    import shapely.geometry as sg
-
-    sets_in = [s["in1"], s["in2"]]
-    T = [_triangulate(s["hull"], inner) for inner in sets_in]
-    if any(t is None for t in T):
-        return False
-    gn, go = _grid2d(s, T[0]), _grid2d(s, T[1])
-    if s["swap"]:
-        gn, go = go, gn
-    cc = np.mean(gn.nodes, axis=1).reshape((3, 1))
-    n = pp.map_geometry.compute_normal(gn.nodes - cc)
-
-    def proj(g):
-        p = g.nodes - cc
-        return pp.map_geometry.project_plane_matrix(p, n).dot(p)[:2]
-
-    def cells(g):
-        cn = g.cell_nodes().tocsc()
-        return cn.indices.reshape((3, g.num_cells), order="F")
-
-    p1, p2, t1, t2 = proj(gn), proj(go), cells(gn), cells(go)
-    grid_size = 1e-12 * max(np.ptp(p1, axis=1).max(), np.ptp(p2, axis=1).max())
-    P2 = [sg.Polygon(p2[:, t2[:, j]].T) for j in range(t2.shape[1])]
-    for i in range(t1.shape[1]):
-        P1 = sg.Polygon(p1[:, t1[:, i]].T)
-        for Q in P2:
-            isect = shapely.intersection(P1, Q, grid_size=grid_size)
-            if not isinstance(isect, sg.Polygon) and isect.area > 0:
-                return True
-    return False
-
-
 KNOWN = {
-    "C33-triangulations-geometrycollection-overlap": _known_collection_overlap,
     "C33-surface-tessellations-empty-polygon": _known_empty_polygon,
     "C33-surface-tessellations-third-set-shared-edge": _known_third_set,
 }
